@@ -597,3 +597,14 @@ def rule_signsem(prog, res, rule="S-sem"):
                "; ".join(probs)[:500] if probs else "holds in all %s width partitions" % m.group(2), f.loc,
                sample={"function": p, "partitions": int(m.group(2))} if n <= 2 else None)
     res.extra["signsem"] = {"partitions": o["partitions"], "paths": o["paths"]}
+
+
+def import_transport(prog, res, signed=True, which=("put", "parse")):
+    """For properties whose statement is about wire content produced / consumed through put and parse (masks, counts, list elements, text bytes):
+    the bit-exact reading of put / parse (B-sem) and, if signed values are involved, of the carriers (S-sem) is part of what they rely on.
+    Only those two rule families are recorded, under the importing property."""
+    import engine
+    view = engine.Filtered(res, {"B-sem", "S-sem"})
+    rule_bitsem(prog, view, which=which)
+    if signed:
+        rule_signsem(prog, view)
